@@ -304,6 +304,7 @@ fn forge<G: Cv>(env: &Env, drv: &mut Driver, x: &G::Scalar, key: &Key, label: &[
     let mut tape = vec![0u8; 32 + nslots * G::DRAW + 512]; rng.fill_bytes(&mut tape);
     let adv_req = format!("venc adv {} {} {} {} {} {} {} {}", G::TAG, sc_hex::<G>(x), hex::encode(&key.id), key.n_hex, hexw(label), nslots, strategy, hex::encode(&tape));
     let a = ask(drv, env, &adv_req);
+    if let Some(why) = a.strip_prefix("skip:") { return Some(Forged { bytes: vec![], adv_req: format!("skip:{why}") }); }
     let f: Vec<&str> = a.split(':').collect();
     if f.len() != 3 || f[0] != "ok" { return None; }
     Some(Forged { bytes: unhexw(f[1]), adv_req })
@@ -340,6 +341,7 @@ fn judge_forged<G: Cv>(env: &Env, drv: &mut Driver, rep: &mut Report, stream: &s
             explained = true;
             let k = if class.starts_with("garbage") { "venc:decrypt-aborts-on-garbage-slot".to_string() }
                     else if class.starts_with("short") { "venc:short-encoding-skipped".to_string() }
+                    else if class.starts_with("adaptive") { "venc:accepted-without-recoverability".to_string() }
                     else { format!("venc:verified-but-not-decryptable:{class}") };
             rep.pred_fail(fail(&k, "a proof that verifies does not decrypt to the discrete logarithm of the claimed point", &format!("verify=ok decrypt={d}"), "verify=ok ⇒ decrypt=ok:x with x*G = Q"));
         }
@@ -477,7 +479,8 @@ fn c10_curve<G: Cv>(o: &Opts, env: &Env, drv: &mut Driver, rep: &mut Report, rng
     let xs = scalar_classes::<G>(rng);
     let key = &env.keys[0];
     // ---------------- (a) every byte of the serialised proof matters (x != 0)
-    let rounds = if thorough { 2 } else { 1 } * o.scale as usize;
+    // the violation search runs at scale 10: the per-byte stream (150+ model requests of 74 KB each per round) is at most doubled
+    let rounds = if thorough { 2 } else { 1 } * (o.scale as usize).min(2);
     for round in 0..rounds {
         let (xname, x) = &xs[[8usize, 2, 3, 5][round % 4]];
         let mut label = vec![0u8; [10usize, 0, 33][round % 3]]; rng.fill_bytes(&mut label);
@@ -558,14 +561,17 @@ fn c10_curve<G: Cv>(o: &Opts, env: &Env, drv: &mut Driver, rep: &mut Report, rng
               "garbage:raw:0,1,2,3,4,5:4000", "garbagenog:raw:0,1,2,3,4,5,6,7", "garbagenog:wrongvalue:0,1,2,3,4,5,6,7", "wrongcommit:0", "wrongcommit:127", "wrongcommit:3,64",
               "wrongside:0", "wrongside:100", "wrongside:5,6,7", "shortr", "shortxr"] { strategies.push((s.to_string(), 128)); }
     strategies.push(("garbage:raw:0,200:200".into(), 256)); strategies.push(("shortr".into(), 200)); strategies.push(("plain".into(), 257)); strategies.push(("wrongside:256".into(), 257));
+    // adaptive forgers that know only Q: each assumes the verifier's challenge omits one component class
+    for d in ["g_r", "enc_x_r", "enc_r", "label", "Q"] { strategies.push((format!("adaptive:{d}"), 128)); }
     if thorough {
+        strategies.push(("adaptive:g_r".into(), 256));
         strategies.push(("garbage:raw:0,1,2,3,4,5,6,7,8,9:60000".into(), 128));
         strategies.push(("garbage:wrongvalue:0,1,2,3,4,5,6,7:20000".into(), 128));
         let all_but_last: Vec<String> = (0..127).map(|i| i.to_string()).collect();
         strategies.push((format!("garbagenog:raw:{}", all_but_last.join(",")), 128));
         strategies.push((format!("wrongcommit:{}", all_but_last.join(",")), 128));
     }
-    let reps = if thorough { 3 } else { 1 } * o.scale as usize;
+    let reps = if thorough { 3 } else { 1 } * (o.scale as usize).min(5);
     for rep_i in 0..reps {
         for (si, (st, nslots)) in strategies.iter().enumerate() {
             // x: mostly random non-zero; x = 0 and x = order-1 now and then (for x = 0 both sides of a slot coincide)
@@ -573,9 +579,10 @@ fn c10_curve<G: Cv>(o: &Opts, env: &Env, drv: &mut Driver, rep: &mut Report, rng
             let mut label = vec![0u8; [3usize, 0, 40][(si + rep_i) % 3]]; rng.fill_bytes(&mut label);
             let kx = if thorough { &env.keys[(si + rep_i) % env.keys.len()] } else { key };
             let q = G::generator() * *x;
-            let class = { let f: Vec<&str> = st.split(':').collect(); let base = if f[0].starts_with("garbage") { format!("{}:{}", f[0], f[1]) } else { f[0].to_string() };
+            let class = { let f: Vec<&str> = st.split(':').collect(); let base = if f[0].starts_with("garbage") || f[0] == "adaptive" { format!("{}:{}", f[0], f[1]) } else { f[0].to_string() };
                           format!("{base}{}{}", if *nslots > 256 { ":slots>256" } else { "" }, if bool::from(x.is_zero()) { ":x=0" } else { "" }) };
             match forge::<G>(env, drv, x, kx, &label, *nslots, st, rng) {
+                Some(f) if f.adv_req.starts_with("skip:") => { if rep_i == 0 && G::BE { rep.notes.push(format!("{st}: {}", &f.adv_req[5..])); } rep.hist("adaptive:skipped-no-attack"); }
                 Some(f) => judge_forged::<G>(env, drv, rep, "forged", &class, &f, &q, kx, &label, None),
                 None => rep.notes.push(format!("adv {st} produced no proof")),
             }
@@ -603,7 +610,7 @@ fn replay_curve<G: Cv>(env: &Env, drv: &mut Driver, rep: &mut Report, lines: &[S
         let t: Vec<&str> = l.split(' ').collect();
         if t.len() < 3 || t[0] != "venc" || t[2] != G::TAG { continue; }
         match (t[1], t.len()) {
-            ("adv", 10) => { let f: Vec<&str> = t[8].split(':').collect(); class = if f[0].starts_with("garbage") && f.len() > 1 { format!("{}:{}", f[0], f[1]) } else { f[0].to_string() };
+            ("adv", 10) => { let f: Vec<&str> = t[8].split(':').collect(); class = if (f[0].starts_with("garbage") || f[0] == "adaptive") && f.len() > 1 { format!("{}:{}", f[0], f[1]) } else { f[0].to_string() };
                              let a = ask(drv, env, l); rep.notes.push(format!("replayed adv: model produced {} chars", a.len())); }
             ("verify", 8) | ("decrypt", 8) => {
                 let (bytes, label) = (unhexw(t[3]), unhexw(t[7]));
